@@ -12,7 +12,7 @@
      regular file holding >= 1 parseable certificates, each CA or self-signed,
      and for tsa each a self-signed root /\ l = the certificates of those files
      in entry order /\ l <> [].                                               *)
-From NV Require Import Base Regex Generated C13_Model C13_Proofs.
+From NV Require Import Base Regex Generated C13_Model C13_Proofs C13_Audit.
 Open Scope string_scope.
 Open Scope list_scope.
 
@@ -121,6 +121,51 @@ Theorem C13_oracle_is_spec : forall i l,
 Proof. exact expected_spec. Qed.
 Print Assumptions C13_oracle_is_spec.
 
+(* ---------- added by the theorem audit (docs/audit/C13.md) ---------- *)
+
+(* "nothing from anywhere else", sharpened. [store_view root ty name] is all that
+   is left of the tree: whether the store path is absent / inaccessible / not a
+   real directory, or else the list of its entries with, per entry, its name,
+   its kind and - for a regular file only - its content; the content of a
+   sub-directory and the target of a symbolic link are erased ([shallow]).
+   Two trees with the same view give the same result: the call never looks into
+   a sub-directory of the store, never through a link, never at any other
+   store, type directory or file. C13_frame is the special case of equal lstat. *)
+Theorem C13_frame_shallow : forall r1 r2 ty name,
+  store_view r1 ty name = store_view r2 ty name ->
+  get_certificates is_valid_file_name r1 ty name = get_certificates is_valid_file_name r2 ty name.
+Proof. exact frame_view. Qed.
+Print Assumptions C13_frame_shallow.
+
+(* "returns exactly the certificates of those files": on success every entry of
+   the store directory is a regular file with parsed certificates, a certificate
+   is returned iff one of these files holds it, and as many are returned as the
+   files hold together (nothing dropped, nothing deduplicated, nothing added) *)
+Theorem C13_exact_members : forall root ty name l,
+  get_certificates is_valid_file_name root ty name = Loaded l ->
+  exists es, lstat root (store_path ty name) = LNode (NDir es) /\
+    (forall nm n, In (nm, n) es -> exists cs, n = NFile (CCerts cs)) /\
+    (forall c, In c l <-> exists nm cs, In (nm, NFile (CCerts cs)) es /\ In c cs) /\
+    List.length l = sum_nat (map (fun e => List.length (certs_of_entry e)) es).
+Proof. exact exact_members. Qed.
+Print Assumptions C13_exact_members.
+
+(* "fails as a whole rather than returning a partial set", on BOTH return values
+   of the Go function. [get_certificates_go] mirrors GetCertificates with its two
+   results ([]*x509.Certificate, error); [load] is its image under [res_of_go].
+   Whenever the error is non-nil the certificate slice is nil - the certificates
+   accumulated from the entries before the offending one are not handed out -
+   and the store is not loadable; whenever the error is nil the slice is exactly
+   the loadable store's certificates. *)
+Theorem C13_error_returns_nothing : forall i,
+  let r := get_certificates_go is_valid_file_name (i_root i) (i_ty i) (i_name i) in
+  res_of_go r = load i /\
+  (forall f, snd r = Some f ->
+     fst r = [] /\ forall l, ~ loadable (i_root i) (i_ty i) (i_name i) l) /\
+  (snd r = None -> loadable (i_root i) (i_ty i) (i_name i) (fst r)).
+Proof. exact two_values. Qed.
+Print Assumptions C13_error_returns_nothing.
+
 (* ---------- non-vacuity ---------- *)
 Example C13_example_loadable :
   loadable ex_tree "ca" "web" [ex_root; ex_inter; ex_root] /\
@@ -154,3 +199,79 @@ Proof.
   - constructor; [|constructor]. apply entry_goodb_spec. reflexivity.
   - intros H. apply entry_goodb_spec in H. discriminate.
 Qed.
+
+(* ---------- non-vacuity of the remaining hypotheses (audit) ---------- *)
+
+(* every branch of C13_store_errors is reached by a concrete tree *)
+Example C13_example_store_errors :
+  (~ known_type "x509" /\ model (mk_input "x509" "web" ex_tree2) = OErr ETrustStore KType "") /\
+  (known_type "ca" /\ ~ plain_name "we b" /\ model (mk_input "ca" "we b" ex_tree2) = OErr ETrustStore KName "") /\
+  (lstat ex_tree2 (store_path "ca" "nope") = LNotExist /\
+   model (mk_input "ca" "nope" ex_tree2) = OErr ETrustStore KNotExist "") /\
+  (lstat ex_tree2 (store_path "signingAuthority" "web") = LOther /\
+   model (mk_input "signingAuthority" "web" ex_tree2) = OErr ETrustStore KAccess "") /\
+  (lstat ex_tree2 (store_path "ca" "afile") = LNode (NFile (CCerts [ex_root])) /\
+   model (mk_input "ca" "afile" ex_tree2) = OErr ETrustStore KNotDir "") /\
+  (lstat ex_tree2 (store_path "ca" "dangling") = LNode (NLink None) /\
+   model (mk_input "ca" "dangling" ex_tree2) = OErr ETrustStore KNotDir "") /\
+  (lstat ex_tree2 (store_path "ca" "empty") = LNode (NDir []) /\
+   model (mk_input "ca" "empty" ex_tree2) = OErr ECertificate KEmpty "").
+Proof.
+  repeat split; try reflexivity.
+  - cbv. intuition discriminate.
+  - cbn; auto.
+  - intros H. apply C13_name_check in H. discriminate.
+Qed.
+
+(* C13_path, C13_only_from_store, C13_exact_members: a known type, a plain name, a loaded store *)
+Example C13_example_path_and_members :
+  known_type "ca" /\ plain_name "web" /\
+  sys_path "ca" "web" = Some ["truststore"; "x509"; "ca"; "web"] /\
+  get_certificates is_valid_file_name ex_tree "ca" "web" = Loaded [ex_root; ex_inter; ex_root] /\
+  In ex_inter [ex_root; ex_inter; ex_root].
+Proof.
+  split; [cbn; auto|]. split; [apply C13_name_check; reflexivity|].
+  split; [reflexivity|]. split; [reflexivity|]. cbn; auto.
+Qed.
+
+(* C13_frame: two trees that differ (other stores, other types, stray files)
+   and agree at the path asked for *)
+Example C13_example_frame :
+  ex_tree <> ex_tree2 /\
+  lstat ex_tree (store_path "ca" "web") = lstat ex_tree2 (store_path "ca" "web") /\
+  model (mk_input "ca" "web" ex_tree2) = OOk [1; 2; 1]%N.
+Proof. split; [discriminate|]. split; reflexivity. Qed.
+
+(* C13_frame_shallow: the stores ca/deep and ca/viaLink of ex_tree2 and ex_tree3
+   differ below the sub-directory and behind the link (lstat differs), the views
+   agree; both fail on the sub-directory / the link although what is below /
+   behind it are good certificates *)
+Example C13_example_frame_shallow :
+  lstat ex_tree2 (store_path "ca" "deep") <> lstat ex_tree3 (store_path "ca" "deep") /\
+  store_view ex_tree2 "ca" "deep" = store_view ex_tree3 "ca" "deep" /\
+  model (mk_input "ca" "deep" ex_tree2) = OErr ECertificate KEntryKind "sub" /\
+  lstat ex_tree2 (store_path "ca" "viaLink") <> lstat ex_tree3 (store_path "ca" "viaLink") /\
+  store_view ex_tree2 "ca" "viaLink" = store_view ex_tree3 "ca" "viaLink" /\
+  model (mk_input "ca" "viaLink" ex_tree2) = OErr ECertificate KEntryKind "l.pem".
+Proof. repeat split; try reflexivity; discriminate. Qed.
+
+(* what "real directory" does and does not mean: only the LAST component of the
+   path must not be a link. In ex_tree2 the type directory tsa is a symbolic
+   link to a directory; the kernel follows it and the store tsa/roots loads
+   (harness families store:type-is-link, store:truststore-is-link) *)
+Example C13_example_intermediate_link_followed :
+  lstat ex_tree2 ["truststore"; "x509"; "tsa"] =
+    LNode (NLink (Some (NDir [("roots", NDir [("r.cer", NFile (CCerts [ex_root]))])]))) /\
+  loadable ex_tree2 "tsa" "roots" [ex_root] /\
+  model (mk_input "tsa" "roots" ex_tree2) = OOk [1]%N.
+Proof.
+  split; [reflexivity|]. split; [|reflexivity].
+  apply C13_iff with (i := mk_input "tsa" "roots" ex_tree2). reflexivity.
+Qed.
+
+(* C13_error_returns_nothing: an error after a good entry (its certificate was
+   already accumulated) returns no certificate; a success returns them all *)
+Example C13_example_two_values :
+  get_certificates_go is_valid_file_name ex_tree "ca" "mixed" = ([], Some (ECertificate, KValidate, "leaf.crt")) /\
+  get_certificates_go is_valid_file_name ex_tree "ca" "web" = ([ex_root; ex_inter; ex_root], None).
+Proof. split; reflexivity. Qed.
